@@ -13,7 +13,7 @@ ANCHORS = [('tlsh.py', 'TLSH.update'), ('tlsh.py', 'TLSH.triplet'), ('tlsh.py', 
            ('tlsh.py', 'TLSH.l_capturing'), ('tlsh.py', 'TLSH.digest'), ('tlsh.py', 'TLSH.from_hash'), ('tlsh.py', 'TLSH.__call__'), ('tlsh.py', 'distance'),
            ('nilsimsa.py', 'Nilsimsa.update'), ('nilsimsa.py', 'Nilsimsa.digest'), ('nilsimsa.py', 'Nilsimsa.tran3'), ('nilsimsa.py', 'Nilsimsa.maketran'),
            ('nilsimsa.py', 'distance')]
-REQUIRED = ['tlsh==model', 'tlsh:length', 'tlsh:none-not-exception', 'tlsh:reload-roundtrip', 'tlsh:distance-laws', 'nilsimsa==model',
+REQUIRED = ['siblings:digest==model', 'tlsh==model', 'tlsh:length', 'tlsh:none-not-exception', 'tlsh:reload-roundtrip', 'tlsh:distance-laws', 'nilsimsa==model',
             'nilsimsa:length', 'nilsimsa:distance==hamming']
 NSHARDS = 14
 SAN = {'quick': (0, 1), 'thorough': (1, 50)}
@@ -43,12 +43,16 @@ def cases(tier, rng):
                     yield {'k': 'tlsh', 'cfg': list(cfg), 'n': n, 'kind': kind, 'force': (i + j + kk) % 2 == 0}
             for j in range(3):
                 yield {'k': 'tlsh-dist', 'cfg': list(cfg), 'j': j}
+            for j in range(2 if tier == 'quick' else 12):
+                yield {'k': 'tlsh-gate', 'cfg': list(cfg), 'j': j}
         for t in (None, 53, 0, 1, 11, 200, 255):
             for n in (0, 1, 2, 3, 4, 5, 6, 10, 50, 300, 2000):
                 for kind in ('rand', 'text', 'const'):
                     yield {'k': 'nil', 'target': t, 'n': n, 'kind': kind}
         for j in range(30):
             yield {'k': 'nil-dist', 'j': j}
+        for j in range(12 if tier == 'quick' else 60):
+            yield {'k': 'siblings', 'fam': ['nilsimsa', 'tlsh'][j % 2], 'j': j}
 
 def run(case, ctx, rng):
     k = case['k']
@@ -79,6 +83,32 @@ def run(case, ctx, rng):
             ctx.check('tlsh:reload-roundtrip', not is_exc(rr) and rr[0] == got and rr[1] == rr[2], rr, (got, 'equal header fields'), **det)
             if not is_exc(rr):
                 ctx.eq('tlsh:header==model', rr[2], sh.tlsh_header(want, c), **det)
+    elif k == 'tlsh-gate':
+        # inputs aimed at the bucket-population gate: periodic low-entropy data whose number of non-zero buckets is
+        # within one of the threshold (buckets/2; 18 and 24 for 48 buckets), found by search with the model's bucket counts
+        from crysp.tlsh import TLSH
+        b, w, c = case['cfg']
+        ctx.cls((b, w, c, 'gate'))
+        targets = {b // 2 - 1, b // 2, b // 2 + 1} | ({17, 18, 24, 25} if b == 48 else set())
+        found = {}
+        for _ in range(400):
+            if len(found) == len(targets):
+                break
+            p = rng.randrange(2, 64); a = rng.choice([2, 3, 4, 6, 16, 256]); n = rng.randrange(50, 320)
+            unit = bytes(rng.randrange(a) * (255 // max(1, a - 1)) % 256 for _ in range(p))
+            d = (unit * (n // p + 1))[:n]
+            nz = sum(1 for x in sh.tlsh_buckets(d, w)[:b] if x)
+            if nz in targets and nz not in found:
+                found[nz] = d
+        for nz, d in sorted(found.items()):
+            ctx.state('gate (buckets, non-zero buckets)', (b, nz))
+            want = sh.tlsh(d, b, w, c, True)
+            got = call(lambda: TLSH(b, w, c)(d, True))
+            det = dict(cfg=case['cfg'], n=len(d), nonzero=nz, data=d[:64])
+            ctx.check('tlsh:none-not-exception', not is_exc(got), got, 'a digest or None', **det)
+            if want != 'UNSPEC':
+                ctx.eq('tlsh==model', got, want, **det)
+                ctx.eq('tlsh:gate-boundary', got is None, want is None, **det)
     elif k == 'tlsh-dist':
         from crysp.tlsh import TLSH, distance
         b, w, c = case['cfg']
@@ -115,6 +145,31 @@ def run(case, ctx, rng):
         ctx.eq('nilsimsa==model', got, sh.nilsimsa(d, 53 if t is None else t), **det)
         if not is_exc(got):
             ctx.check('nilsimsa:length', isinstance(got, bytes) and len(got) == 32, len(got), 32, **det)
+    elif k == 'siblings':
+        from vmon.core import siblings
+        from crysp.nilsimsa import Nilsimsa
+        from crysp.tlsh import TLSH
+        fam = case['fam']
+        ctx.cls(('siblings', fam, case['j'] % 3))
+        specs = []
+        if fam == 'nilsimsa':
+            for t in rng.sample([None, 53, 17, 99, 200, 1], 3):
+                d1 = data(rng, 'text', 120); d2 = data(rng, 'rand', 60)
+                tt = 53 if t is None else t
+                specs.append(('Nilsimsa(%s)' % t, (lambda t=t: Nilsimsa(t)), [('h(d1)', (lambda o, d=d1: o(d)), sh.nilsimsa(d1, tt)), ('h(d2)', (lambda o, d=d2: o(d)), sh.nilsimsa(d2, tt)),
+                                                                               ('update+digest', (lambda o, d=d1: o.update(d[:50]).update(d[50:]).digest()), sh.nilsimsa(d1, tt))]))
+        else:
+            for cfg in rng.sample(CFGS, 3):
+                b, w, c = cfg
+                d1 = data(rng, 'text', 400); d2 = data(rng, 'rand', 300)
+                uses = []
+                for lab, d in (('h(d1,force)', d1), ('h(d2,force)', d2)):
+                    want = sh.tlsh(d, b, w, c, True)
+                    if want != 'UNSPEC':
+                        uses.append((lab, (lambda o, d=d: o(d, True)), want))
+                uses.append(('h(short)', (lambda o: o(b'short input')), None))
+                specs.append(('TLSH%s' % (cfg,), (lambda cfg=cfg: TLSH(*cfg)), uses))
+        siblings(ctx, rng, 'siblings:digest==model', specs, late=specs.pop(), family=fam)
     elif k == 'nil-dist':
         from crysp.nilsimsa import Nilsimsa, distance
         ctx.cls(('nil-dist', case['j'] % 5))
